@@ -66,6 +66,12 @@ def _xclone(floor, *prefixes):
     return lambda c: RX.clone_shares(c.P, c.E, _pfx(*prefixes), floor)
 
 
+def _only_subjects(r):
+    r.instances = [i for i in r.instances if i[0] and str(i[0][0]).lstrip("<").startswith("subjects::")]
+    r.violations = [v for v in r.violations if v.key and str(v.key[0]).lstrip("<").startswith("subjects::")]
+    return r
+
+
 class Ctx:
     def __init__(self, P, E, H):
         self.P, self.E, self.H = P, E, H
@@ -132,6 +138,7 @@ def rules_for(pid):
             ("H-next-forward", lambda c: ROPS.forward_rule(c.P, c.E, c.H), 8),
             ("SUB-inputs", lambda c: RX.sub_inputs(c.P, c.E, c.H), 40),
             ("RETRY", lambda c: ROPS.retry_rule(c.P, c.E, c.H), 2),
+            ("S-gate", lambda c: RO.s_gate(c.P, c.E), 3),
         ],
         "C05": [
             ("O-unsub-order", lambda c: RO.o_unsub_order(c.P, c.E), 4),
@@ -145,6 +152,7 @@ def rules_for(pid):
             ("X-blocking-acq", _xacq("observer::", "internals::function_wrapper::", "subscription::"), 5),
             ("CLONE-SHARES", _xclone(2, "observer::", "subscription::"), 2),
             ("F-slot-truth", lambda c: RO.f_slot_truth(c.P, c.E), 4),
+            ("Q", lambda c: RQ.q_rules(c.P, c.E), 10),
         ],
         "C06": [
             ("H-early-stop", lambda c: RH.h_early_stop(c.P, c.E, c.H), 24),
@@ -165,6 +173,7 @@ def rules_for(pid):
             ("L4", lambda c: RL.l4_producer_polling(c.P, c.E), 3),
             ("F-no-guard-call", lambda c: RO.f_no_guard_call(c.P, c.E), 3),
             ("S-finalize-after-terminal", lambda c: RO.s_finalize_after_terminal(c.P, c.E), 3),
+            ("Q-lock-order", lambda c: _only(RQ.q_rules(c.P, c.E), ("L3", "Q1", "Q10")), 2),
         ],
         "C08": [
             ("Q", lambda c: RQ.q_rules(c.P, c.E), 10),
@@ -208,6 +217,7 @@ def rules_for(pid):
             ("X-blocking-acq", _xacq("subjects::"), 15),
             ("CLONE-SHARES", _xclone(3, "subjects::"), 3),
             ("SUBJ", lambda c: ROPS.subjects_rule(c.P, c.E, c.H), 8),
+            ("L1-subjects", lambda c: _only_subjects(RL.l1_reentrancy(c.P, c.E, c.H)), 1),
         ],
         "C11": [
             ("D", lambda c: RJ.d_rules(c.P, c.E, c.H), 3),
@@ -229,6 +239,7 @@ def rules_for(pid):
             ("X-blocking-acq", _xacq("operators::ref_count::", "operators::replay::", "operators::publish::", "subjects::"), 15),
             ("CLONE-SHARES", _xclone(3, "operators::ref_count::", "operators::replay::", "operators::publish::"), 3),
             ("OBS-fresh", lambda c: RX.obs_fresh(c.P, c.E, c.H), 30),
+            ("LATE-HANDLE", lambda c: RJ.late_handle(c.P, c.E), 2),
         ],
         "C15": [
             ("T1", lambda c: RS.t1_abort_wired(c.P, c.E), 3),
@@ -237,6 +248,7 @@ def rules_for(pid):
             ("L4", lambda c: RL.l4_producer_polling(c.P, c.E), 3),
             ("S-finalize-after-terminal", lambda c: RO.s_finalize_after_terminal(c.P, c.E), 3),
             ("X-blocking-acq", _xacq("schedulers::"), 4),
+            ("S-wiring", lambda c: RO.s_wiring(c.P, c.E), 3),
         ],
         "C19": [
             ("A19b", lambda c: RJ.a19b(c.P, c.E), 3),
@@ -252,6 +264,7 @@ def rules_for(pid):
             ("K-fw-immutable", lambda c: RK.k_fw_immutable(c.P, c.E), 3),
             ("CLONE-SHARES", _xclone(40, "operators::", "observable::", "internals::function_wrapper::"), 40),
             ("OBS-fresh", lambda c: RX.obs_fresh(c.P, c.E, c.H), 30),
+            ("R1", lambda c: RH.r1_retry_drops_first(c.P, c.E, c.H), 3),
         ],
     }
     return R.get(pid, [])
